@@ -196,6 +196,18 @@ pub fn templates() -> Vec<G> {
         m(G::TryMap(b(m(G::Any)), Pred::FirstIn("a".into()), 1)),
         G::Or(b(m(G::Custom { take: 1, ok: false, tag: 2 })), b(m(j("b")))),
     ];
+    // one memoized VALUE (built once, cloned) that emits and then fails, visited three and four times at one position:
+    // twice inside abandoned alternatives, then outside any backtracking combinator (every replay of the remembered
+    // failure must re-emit the non-fatal errors of the first attempt, not only the first replay)
+    for head in [G::Then(b(G::Validate(b(G::Any), 1, 1)), b(j("b"))), G::Then(b(G::Validate(b(j("a")), 2, 2)), b(G::Then(b(G::Validate(b(G::Any), 3, 1)), b(j("c")))))] {
+        let h = m(head);
+        let two = G::Or(b(G::Then(b(h.clone()), b(j("c")))), b(G::Then(b(h.clone()), b(j("a")))));
+        let three = G::Choice(vec![G::Then(b(h.clone()), b(j("c"))), G::Then(b(h.clone()), b(j("a"))), G::Then(b(h.clone()), b(j("bb")))]);
+        out.push(G::Then(b(G::OrNot(b(two.clone()))), b(h.clone())));
+        out.push(G::Then(b(G::OrNot(b(three.clone()))), b(h.clone())));
+        out.push(G::Then(b(G::OrNot(b(two.clone()))), b(G::Then(b(h.clone()), b(rep(G::Any, 0, None))))));
+        out.push(G::Then(b(G::Not(b(two))), b(G::Then(b(G::Rewind(b(G::OrNot(b(h.clone()))))), b(h.clone())))));
+    }
     out.retain(wf);
     out
 }
@@ -228,7 +240,11 @@ pub fn decode(tape: &[u32]) -> (G, Vec<char>) {
             if !memos.is_empty() {
                 let src = node_at(&g, memos[gg.t.pick(memos.len())]).unwrap().clone();
                 let at = gg.t.pick(n);
-                let partner = match gg.t.pick(3) {
+                let z = |s: &str| G::Just(s.into());
+                let partner = match gg.t.pick(5) {
+                    // three visits at one position: two inside abandoned alternatives, the third outside any backtracking
+                    3 => G::Then(b(G::OrNot(b(G::Or(b(G::Then(b(src.clone()), b(z("z")))), b(G::Then(b(src.clone()), b(z("y")))))))), b(G::Then(b(src.clone()), b(G::OrNot(b(g.clone())))))),
+                    4 => G::Then(b(G::Not(b(G::Then(b(src.clone()), b(z("z")))))), b(G::Then(b(G::OrNot(b(G::Then(b(src.clone()), b(z("y")))))), b(G::Then(b(src.clone()), b(G::OrNot(b(g.clone())))))))),
                     // an alternative that retries the same memoized parser at the same position
                     0 => G::Or(b(G::Then(b(src.clone()), b(G::Just("z".into())))), b(g.clone())),
                     1 => G::Then(b(G::OrNot(b(G::Then(b(src.clone()), b(G::Just("z".into())))))), b(g.clone())),
@@ -398,7 +414,7 @@ pub fn run(tier: Tier, seed: u64) -> i32 {
         }
         Ok(())
     });
-    let n = ctx.pick(150_000, 3_000_000);
+    let n = ctx.pick(600_000, 4_000_000);
     ctx.par_random(n, 200, 11, |tape, l| {
         let (g, input) = decode(tape);
         debug_assert!(wf(&g), "ill-formed: {}", render(&g));
